@@ -585,10 +585,14 @@ with p_alignment_specifier (fuel: nat) : M node :=
   end
 with p_atomic_specifier (fuel: nat) : M node :=
   match fuel with O => oof | S f =>
-    expect K_uATOMIC ;;;
+    atok <- expect K_uATOMIC ;;
     expect K_LPAREN ;;;
     typ <- p_type_name f ;;
     expect K_RPAREN ;;;
+    ty <- getA P a_type typ ;;
+    (if is_cls P C_ArrayDecl ty || is_cls P C_FuncDecl ty
+     then (c <- tok_coord atok ;; fail (L_coord P c) (s2l "Invalid _Atomic specifier: array or function type"))
+     else ret tt) ;;;
     q <- getA P a_quals typ ;;
     q' <- lift_opt P CK_Attribute (vlist_append P (VStr s_Atomic) q) ;;
     setA P a_quals q' typ
